@@ -16,7 +16,7 @@ RULE = ('queries {finite flat facts; a fact whose second argument is a 60-elemen
         '(infinitely many answers, each deeper); left recursion lp(X) :- lp(X). lp(a). (diverges before any answer); a '
         'rule with a deep failing branch between answers; registered Python predicates whose clean-up (finally) code needs 0, 3, 12 or 30 nested calls, queried directly and through call/1} x EVERY recursion_limit from 8 to 400 (each value moves the '
         'point at which the limit strikes; quick: every value up to 89, then every 7th) x projection functions {identity, observe the variables, '
-        'raise ValueError at the k-th answer for k=1..5, raise RuntimeError at the 2nd, raise StopIteration at the 2nd}, '
+        'raise ValueError at the k-th answer for k=1..5, raise RuntimeError at the 2nd, raise StopIteration at the 2nd, run a bounded sub-query on the same engine for every answer (nested evaluate_bounded, inner limit 150 / 500)}, '
         'called from a shallow stack. Checked: no RecursionError escapes; the result is a prefix of RefProlog\'s answer '
         'sequence (projected), and the whole sequence when the limit exceeds the measured stack depth of an unbounded '
         'run by a margin; afterwards sys.getrecursionlimit() is the old value and every live engine variable (weak set '
@@ -145,6 +145,15 @@ def projections(obsfn):
     return out
 
 
+def nested_projection(yp, obsfn, inner_limit):
+    """a projection that runs a bounded sub-query on the SAME engine for every answer"""
+    def proj(x):
+        v = yp.variable()
+        sub = yp.evaluate_bounded(yp.query('col', [v]), lambda y: 1, inner_limit)
+        return obsfn()
+    return proj
+
+
 def measure_depth(yp, goal):
     """max interpreter stack depth of an unbounded enumeration (None if it does not finish
     within 300 answers / the default limit)"""
@@ -198,8 +207,11 @@ def one_call(pytext, qname, goal, limit, pname, exp, need_depth):
 
     def obsfn():
         return impl.observe(obs)
-    fac = dict(projections(obsfn))[pname]
-    proj = fac()
+    if pname.startswith('nested@'):
+        proj = nested_projection(yp, obsfn, int(pname.split('@')[1]))
+    else:
+        fac = dict(projections(obsfn))[pname]
+        proj = fac()
     snap = snapshot()
     old = sys.getrecursionlimit()
     q = yp.query(goal[1], args)
@@ -284,7 +296,7 @@ def _shard(spec, acc):
     register_python(yp0)
     depth = {qn: (measure_depth(yp0, g) if exp[qn]['complete'] else None) for qn, g in queries()}
     acc.info['measured_stack_depth_of_unbounded_runs'] = {qn: d for qn, d in depth.items()}
-    pnames = [p for p, _ in projections(lambda: None)]
+    pnames = [p for p, _ in projections(lambda: None)] + ['nested@150', 'nested@500']
     idx = 0
     for limit in limits(tier):
         for qn, goal in queries():
